@@ -2,6 +2,8 @@
  * Appends to $PAGER_LOG:  "start <argv0-basename> <argv joined by \x1f>" ,  "got <bytes> <fnv1a-hash>" ,
  * "done".  $PAGER_QUIT_AFTER=n : stop reading after n bytes and exit at once (the user pressed q).
  * $PAGER_LINGER_MS=m : after end of input wait m ms before exiting (the user keeps reading).
+ * $PAGER_STAY_MS=m : having stopped reading ($PAGER_QUIT_AFTER), close stdin but stay alive for m ms (a pager
+ * that is still busy - redrawing, restoring the terminal, a wrapper script - after it has stopped reading).
  * Called as `less --version` it prints a version banner (delta asks). */
 #include <stdio.h>
 #include <stdlib.h>
@@ -51,6 +53,9 @@ int main(int argc, char **argv) {
   if (!quit) {
     const char *l = getenv("PAGER_LINGER_MS");
     if (l) usleep(atol(l) * 1000);
+  } else {
+    const char *l = getenv("PAGER_STAY_MS");
+    if (l) { close(0); usleep(atol(l) * 1000); }
   }
   logline("done");
   const char *e = getenv("PAGER_EXIT");
